@@ -4,6 +4,9 @@ package main
 // configurable staking and oracle inputs.  A stripped-down keeper.CreateTestEnv.
 
 import (
+	"crypto/sha256"
+	"encoding/binary"
+	"encoding/hex"
 	"fmt"
 	"os"
 	"sort"
@@ -118,7 +121,9 @@ func (s *StakingIn) Validator(ctx sdk.Context, addr sdk.ValAddress) stakingtypes
 func (s *StakingIn) ValidatorByConsAddr(ctx sdk.Context, addr sdk.ConsAddress) stakingtypes.ValidatorI {
 	return nil
 }
-func (s *StakingIn) GetParams(ctx sdk.Context) stakingtypes.Params { return stakingtypes.DefaultParams() }
+func (s *StakingIn) GetParams(ctx sdk.Context) stakingtypes.Params {
+	return stakingtypes.DefaultParams()
+}
 func (s *StakingIn) GetValidator(ctx sdk.Context, addr sdk.ValAddress) (stakingtypes.Validator, bool) {
 	for _, v := range s.Vals {
 		if v.Oper.Equals(addr) {
@@ -174,19 +179,22 @@ func lower(s string) string {
 // ---------- environment ----------
 
 type Env struct {
-	Ctx      sdk.Context
-	MS       store.CommitMultiStore
-	K        keeper.Keeper
-	Msg      types.MsgServer
-	Bank     bankkeeper.BaseKeeper
-	Acc      authkeeper.AccountKeeper
-	Staking  *StakingIn
-	Oracle   *OracleIn
-	HubKey   *sdk.KVStoreKey
-	BankKey  *sdk.KVStoreKey
-	OrcKey   *sdk.KVStoreKey
-	OK       okeeper.Keeper
-	OMsg     otypes.MsgServer
+	Ctx           sdk.Context
+	MS            store.CommitMultiStore
+	K             keeper.Keeper
+	Msg           types.MsgServer
+	Bank          bankkeeper.BaseKeeper
+	Acc           authkeeper.AccountKeeper
+	Staking       *StakingIn
+	Oracle        *OracleIn
+	HubKey        *sdk.KVStoreKey
+	BankKey       *sdk.KVStoreKey
+	OrcKey        *sdk.KVStoreKey
+	AccKey        *sdk.KVStoreKey
+	ParamsKey     *sdk.KVStoreKey
+	TParamsKey    *sdk.TransientStoreKey
+	OK            okeeper.Keeper
+	OMsg          otypes.MsgServer
 	useRealOracle bool
 }
 
@@ -204,77 +212,83 @@ func DefaultTestParams(chains []string) types.Params {
 }
 
 func NewEnv(o EnvOpts) *Env {
-	hubKey := sdk.NewKVStoreKey(types.StoreKey)
-	keyAcc := sdk.NewKVStoreKey(authtypes.StoreKey)
-	keyBank := sdk.NewKVStoreKey(banktypes.StoreKey)
-	keyParams := sdk.NewKVStoreKey(paramstypes.StoreKey)
-	tkeyParams := sdk.NewTransientStoreKey(paramstypes.TStoreKey)
-	orcKey := sdk.NewKVStoreKey(otypes.StoreKey)
+	e := &Env{useRealOracle: o.RealOracle}
+	e.HubKey = sdk.NewKVStoreKey(types.StoreKey)
+	e.AccKey = sdk.NewKVStoreKey(authtypes.StoreKey)
+	e.BankKey = sdk.NewKVStoreKey(banktypes.StoreKey)
+	e.ParamsKey = sdk.NewKVStoreKey(paramstypes.StoreKey)
+	e.TParamsKey = sdk.NewTransientStoreKey(paramstypes.TStoreKey)
+	e.OrcKey = sdk.NewKVStoreKey(otypes.StoreKey)
 
 	db := dbm.NewMemDB()
 	ms := store.NewCommitMultiStore(db)
-	ms.MountStoreWithDB(hubKey, sdk.StoreTypeIAVL, db)
-	ms.MountStoreWithDB(keyAcc, sdk.StoreTypeIAVL, db)
-	ms.MountStoreWithDB(keyParams, sdk.StoreTypeIAVL, db)
-	ms.MountStoreWithDB(keyBank, sdk.StoreTypeIAVL, db)
-	ms.MountStoreWithDB(tkeyParams, sdk.StoreTypeTransient, db)
-	ms.MountStoreWithDB(orcKey, sdk.StoreTypeIAVL, db)
+	ms.MountStoreWithDB(e.HubKey, sdk.StoreTypeIAVL, db)
+	ms.MountStoreWithDB(e.AccKey, sdk.StoreTypeIAVL, db)
+	ms.MountStoreWithDB(e.ParamsKey, sdk.StoreTypeIAVL, db)
+	ms.MountStoreWithDB(e.BankKey, sdk.StoreTypeIAVL, db)
+	ms.MountStoreWithDB(e.TParamsKey, sdk.StoreTypeTransient, db)
+	ms.MountStoreWithDB(e.OrcKey, sdk.StoreTypeIAVL, db)
 	if err := ms.LoadLatestVersion(); err != nil {
 		panic(err)
 	}
-	ctx := sdk.NewContext(ms, tmproto.Header{Height: 0, Time: time.Unix(1600000000, 0).UTC()}, false, harnessLogger())
+	e.MS = ms
+	e.Ctx = sdk.NewContext(ms, tmproto.Header{Height: 0, Time: time.Unix(1600000000, 0).UTC()}, false, harnessLogger())
+	e.Staking = &StakingIn{}
+	e.Oracle = &OracleIn{Prices: map[string]sdk.Dec{}, Holders: map[string]sdk.Int{}}
+	e.Wire()
 
-	cdc := keeper.MakeTestCodec()
-	marshaler := keeper.MakeTestMarshaler()
-	pk := paramskeeper.NewKeeper(marshaler, cdc, keyParams, tkeyParams)
-	pk.Subspace(authtypes.ModuleName)
-	pk.Subspace(banktypes.ModuleName)
-	pk.Subspace(types.DefaultParamspace)
-	pk.Subspace(otypes.ModuleName)
-	sub := func(name string) paramstypes.Subspace { s, _ := pk.GetSubspace(name); return s }
-
-	maccPerms := map[string][]string{
-		authtypes.FeeCollectorName: nil,
-		types.ModuleName:           {authtypes.Minter, authtypes.Burner},
-	}
-	ak := authkeeper.NewAccountKeeper(marshaler, keyAcc, sub(authtypes.ModuleName), authtypes.ProtoBaseAccount, maccPerms)
-	blocked := map[string]bool{}
-	for acc := range maccPerms {
-		blocked[authtypes.NewModuleAddress(acc).String()] = true
-	}
-	bk := bankkeeper.NewBaseKeeper(marshaler, keyBank, ak, sub(banktypes.ModuleName), blocked)
-	bk.SetParams(ctx, banktypes.Params{DefaultSendEnabled: true})
+	ctx := e.Ctx
+	e.Bank.SetParams(ctx, banktypes.Params{DefaultSendEnabled: true})
 	names := make([]string, 0, len(maccPerms))
 	for name := range maccPerms {
 		names = append(names, name)
 	}
 	sort.Strings(names)
 	for _, name := range names {
-		ak.SetModuleAccount(ctx, authtypes.NewEmptyModuleAccount(name, maccPerms[name]...))
+		e.Acc.SetModuleAccount(ctx, authtypes.NewEmptyModuleAccount(name, maccPerms[name]...))
 	}
+	params := o.Params
+	keeper.InitGenesis(ctx, e.K, types.GenesisState{Params: &params, TokenInfos: &types.TokenInfos{TokenInfos: o.Tokens}, ExternalStates: o.States})
+	op := otypes.DefaultParams()
+	okeeper.InitGenesis(ctx, e.OK, otypes.GenesisState{Params: op})
+	return e
+}
 
-	st := &StakingIn{}
-	or := &OracleIn{Prices: map[string]sdk.Dec{}, Holders: map[string]sdk.Int{}}
+var maccPerms = map[string][]string{
+	authtypes.FeeCollectorName: nil,
+	types.ModuleName:           {authtypes.Minter, authtypes.Burner},
+}
 
-	ok := okeeper.NewKeeper(marshaler, orcKey, sub(otypes.ModuleName), st)
+// Wire builds every keeper and message server over the environment's stores.  Calling it again is
+// what a process restart does to the modules: whatever they keep outside the stores is gone.
+func (e *Env) Wire() {
+	cdc := keeper.MakeTestCodec()
+	marshaler := keeper.MakeTestMarshaler()
+	pk := paramskeeper.NewKeeper(marshaler, cdc, e.ParamsKey, e.TParamsKey)
+	pk.Subspace(authtypes.ModuleName)
+	pk.Subspace(banktypes.ModuleName)
+	pk.Subspace(types.DefaultParamspace)
+	pk.Subspace(otypes.ModuleName)
+	sub := func(name string) paramstypes.Subspace { s, _ := pk.GetSubspace(name); return s }
 
-	var orcIface types.OracleKeeper = or
-	if o.RealOracle {
+	ak := authkeeper.NewAccountKeeper(marshaler, e.AccKey, sub(authtypes.ModuleName), authtypes.ProtoBaseAccount, maccPerms)
+	blocked := map[string]bool{}
+	for acc := range maccPerms {
+		blocked[authtypes.NewModuleAddress(acc).String()] = true
+	}
+	bk := bankkeeper.NewBaseKeeper(marshaler, e.BankKey, ak, sub(banktypes.ModuleName), blocked)
+
+	ok := okeeper.NewKeeper(marshaler, e.OrcKey, sub(otypes.ModuleName), e.Staking)
+	var orcIface types.OracleKeeper = e.Oracle
+	if e.useRealOracle {
 		orcIface = ok
 	}
-	k := keeper.NewKeeper(marshaler, hubKey, sub(types.DefaultParamspace), ak, bk, nil, orcIface, sdk.DefaultPowerReduction)
-	k = k.SetStakingKeeper(st)
+	k := keeper.NewKeeper(marshaler, e.HubKey, sub(types.DefaultParamspace), ak, bk, nil, orcIface, sdk.DefaultPowerReduction)
+	k = k.SetStakingKeeper(e.Staking)
 	ok = ok.SetMhub2Keeper(k)
 	// the oracle's attestation handler holds a copy of the keeper made before SetMhub2Keeper
 	// (as in app.go); it only uses the store key, so that is harmless.
-
-	params := o.Params
-	keeper.InitGenesis(ctx, k, types.GenesisState{Params: &params, TokenInfos: &types.TokenInfos{TokenInfos: o.Tokens}, ExternalStates: o.States})
-	op := otypes.DefaultParams()
-	okeeper.InitGenesis(ctx, ok, otypes.GenesisState{Params: op})
-
-	return &Env{Ctx: ctx, MS: ms, K: k, Msg: keeper.NewMsgServerImpl(k), Bank: bk, Acc: ak, Staking: st, Oracle: or,
-		HubKey: hubKey, BankKey: keyBank, OrcKey: orcKey, OK: ok, OMsg: okeeper.NewMsgServerImpl(ok), useRealOracle: o.RealOracle}
+	e.K, e.Msg, e.Bank, e.Acc, e.OK, e.OMsg = k, keeper.NewMsgServerImpl(k), bk, ak, ok, okeeper.NewMsgServerImpl(ok)
 }
 
 // Restart exports the genesis of the bridge, oracle, bank and auth modules (through JSON, as a real
@@ -333,8 +347,38 @@ func (e *Env) Tx(txBytes []byte, f func(ctx sdk.Context) error) (int64, string) 
 	code, msg := outcome(func() error { return f(cctx) })
 	if code == 0 {
 		write()
+		// as baseapp does for a successful tx: its events become part of the block's result
+		e.Ctx.EventManager().EmitEvents(cctx.EventManager().Events())
 	}
 	return code, msg
+}
+
+// StateHash: SHA-256 over every key/value pair of the bridge, oracle and bank stores and over the
+// ABCI events emitted since the last call (determinism suite).
+func (e *Env) StateHash() string {
+	h := sha256.New()
+	for _, key := range []*sdk.KVStoreKey{e.HubKey, e.OrcKey, e.BankKey} {
+		it := e.Ctx.KVStore(key).Iterator(nil, nil)
+		for ; it.Valid(); it.Next() {
+			binary.Write(h, binary.BigEndian, uint32(len(it.Key())))
+			h.Write(it.Key())
+			binary.Write(h, binary.BigEndian, uint32(len(it.Value())))
+			h.Write(it.Value())
+		}
+		it.Close()
+		h.Write([]byte{0xff})
+	}
+	for _, ev := range e.Ctx.EventManager().ABCIEvents() {
+		h.Write([]byte(ev.Type))
+		for _, a := range ev.Attributes {
+			h.Write(a.Key)
+			h.Write([]byte{0})
+			h.Write(a.Value)
+			h.Write([]byte{1})
+		}
+	}
+	e.Ctx = e.Ctx.WithEventManager(sdk.NewEventManager())
+	return hex.EncodeToString(h.Sum(nil)[:12])
 }
 
 // ---------- deterministic PRNG (splitmix64) ----------
@@ -355,7 +399,7 @@ func (r *Rng) Intn(n int) int {
 	return int(r.Next() % uint64(n))
 }
 func (r *Rng) Chance(num, den int) bool { return r.Intn(den) < num }
-func (r *Rng) Fork(tag uint64) *Rng    { return &Rng{s: r.Next() ^ (tag * 0x2545F4914F6CDD1D)} }
+func (r *Rng) Fork(tag uint64) *Rng     { return &Rng{s: r.Next() ^ (tag * 0x2545F4914F6CDD1D)} }
 
 func harnessLogger() log.Logger {
 	if os.Getenv("VERIF_DEBUG") != "" {
